@@ -137,6 +137,7 @@ type frame struct {
 type deferred struct {
 	fn   *ssa.Function
 	call *ssa.Defer
+	args []string // of a deferred literal: evaluated at the defer statement
 }
 
 // Run enumerates the abstract traces of fn from an unconstrained entry state.
@@ -209,11 +210,16 @@ func (s *Sim) walkFrom(fr *frame, b *ssa.BasicBlock, prev *ssa.BasicBlock, t *Tr
 			}
 			s.havocKey(t, key, fields)
 		case *ssa.Defer:
-			if mc, ok := x.Call.Value.(*ssa.MakeClosure); ok {
-				fr.defers = append(fr.defers, deferred{mc.Fn.(*ssa.Function), x})
+			if cf := ClosureOf(x.Call.Value); cf != nil {
+				// arguments are evaluated when the defer statement executes
+				d := deferred{fn: cf, call: x}
+				for _, a := range x.Call.Args {
+					d.args = append(d.args, s.val(fr, t, a))
+				}
+				fr.defers = append(fr.defers, d)
 			} else {
 				// deferred named call: record as event at rundefers time (approximated here)
-				fr.defers = append(fr.defers, deferred{nil, x})
+				fr.defers = append(fr.defers, deferred{fn: nil, call: x})
 			}
 		case *ssa.Go:
 			s.callEvent(fr, t, x, true)
@@ -360,6 +366,11 @@ func (s *Sim) runDefers(fr *frame, defs []deferred, i int, t *Trace, done func(*
 		return
 	}
 	cfr := &frame{fn: d.fn, fi: s.P.Info(d.fn), regs: map[ssa.Value]string{}, parent: fr}
+	for i, prm := range d.fn.Params {
+		if i < len(d.args) {
+			cfr.regs[prm] = d.args[i]
+		}
+	}
 	s.walk(cfr, d.fn.Blocks[0], nil, t, map[*ssa.BasicBlock]bool{}, func(t2 *Trace, _ []string) {
 		if t2.Exit == "panic" || t2.Exit == "truncated" {
 			// a panicking deferred closure ends the trace
@@ -420,6 +431,31 @@ func (s *Sim) condRel(fr *frame, t *Trace, v ssa.Value) (Rel, bool) {
 	switch x := v.(type) {
 	case *ssa.BinOp:
 		if op, ok := cmpOps[x.Op]; ok {
+			// a comparison of a never-nil value (boxed struct, constructed error,
+			// sentinel) with nil is decided
+			if x.Op == token.EQL || x.Op == token.NEQ {
+				sel := func(v ssa.Value) ssa.Value {
+					for k := 0; k < 8; k++ {
+						ph, isPhi := v.(*ssa.Phi)
+						if !isPhi {
+							break
+						}
+						nv, has := fr.phiSel[ph]
+						if !has || nv == v {
+							break
+						}
+						v = nv
+					}
+					return v
+				}
+				l, r := sel(x.X), sel(x.Y)
+				if (isNilC(r) && s.P.NeverNil(l, 0)) || (isNilC(l) && s.P.NeverNil(r, 0)) {
+					if x.Op == token.NEQ {
+						return Rel{"0", "==", "0"}, true
+					}
+					return Rel{"0", "==", "1"}, true
+				}
+			}
 			a, b := s.val(fr, t, x.X), s.val(fr, t, x.Y)
 			if isUnsigned(x.X) {
 				t.Unsigned[a] = true
@@ -833,6 +869,10 @@ func (s *Sim) call(fr *frame, t *Trace, x *ssa.Call) []string {
 	for i := 0; i < nres; i++ {
 		t.fresh++
 		res = append(res, fmt.Sprintf("ret:%s#%d.%d", name, t.fresh, i))
+	}
+	// a constructor of errors never hands back nil (opError, errors.New, …)
+	if nres == 1 && s.P.NeverNil(x, 0) {
+		t.Facts = append(t.Facts, Rel{res[0], "!=", "nil"})
 	}
 	return setRes(res)
 }
